@@ -102,6 +102,16 @@ let handle fields impl : string option * string list =
         | _ -> []
       end else if starts impl "panic" then ["handle-talk-request-panics " ^ impl] else [] in
     (Some m, mons)
+  | ["accfull"; _own; _pv; _n] ->
+    (* no model observable (the per-key verdicts are C09's model); the property clause checked on the implementation:
+       keys are announced accepted exactly when a connection id to send them on is announced *)
+    let mons =
+      if starts impl "ok" then begin
+        let acc = (try int_of_string (field impl "acc") with _ -> -1) and cid = field impl "cid" in
+        (if acc > 0 && cid = "z" then [Printf.sprintf "accept-without-connection-id %d keys marked accepted, connection id 0" acc] else []) @
+        (if acc = 0 && cid = "nz" then ["connection-id-without-accepted-key"] else [])
+      end else if starts impl "panic" then ["handle-talk-request-panics " ^ impl] else [] in
+    (None, mons)
   | ["hist"; own; steps] ->
     let parse part = match String.split_on_char ':' part with
       | [i; kind; pv] ->
